@@ -271,6 +271,14 @@ Theorem C02_readonly_fetch_keeps_own_view w i ps s sel xs :
 Proof. exact (readonly_fetch_keeps_own_view w i ps s sel xs). Qed.
 Print Assumptions C02_readonly_fetch_keeps_own_view.
 
+(* a change attempted in a read-only selection is refused after the trailing flush only: nothing shared changes *)
+Theorem C02_refused_command_changes_nothing_shared w i w' out oc :
+  do_cmd w i CSearchBad = (w', out, oc) ->
+  same_db w w' /\ (forall mb, fresh_view w' mb = fresh_view w mb) /\
+  (forall j, j <> i -> get_sess w' j = get_sess w j).
+Proof. exact (refused_command_changes_nothing_shared w i w' out oc). Qed.
+Print Assumptions C02_refused_command_changes_nothing_shared.
+
 Example C02_readonly_example :
   do_cmd ro_w0 0 (CFetchBodyRO [1%nat] false) = (ro_w0, [], OOk) /\
   fst (fst (do_cmd ro_w0 0 (CFetchBody [1%nat]))) <> ro_w0.
